@@ -672,14 +672,21 @@ def r5_ownership(ctx) -> None:
                     else:
                         r.violation("C15.R5", q, unparse(st), "owner back-pointer cleared outside _clear_pipeline", loc)
             if isinstance(x, ast.Call) and call_name(x).endswith("._clear_pipeline") and fi.name != "_clear_pipeline":
-                recv = unparse(x.func.value)
                 if fi.name == "__add__" and fi.cls and fi.cls.name == "ProcessingPipeline":
-                    r.violation("C15.R5", q, short(x, 80),
-                                f"'+' strips {recv} of the ownership of its items and moves the item objects into the sum: an operand that is used again afterwards "
-                                f"(e.g. the class-level backend_processing_pipeline on every init_processing_pipeline, or one pipeline object given to two backends) "
-                                f"runs items whose state back-pointer belongs to the last sum built", loc)
-                else:
-                    r.violation("C15.R5", q, short(x, 80), "owners are cleared outside the '+' operator", loc)
+                    continue  # decided below by interpreting the operator
+                r.violation("C15.R5", q, short(x, 80), "owners are cleared outside the '+' operator", loc)
+    # '+' interpreted (sa.tabulate, Proxy; shared with C14.R3/R5): whose items lose their owner
+    from .standins import pipeline_sum_outcome
+    o = pipeline_sum_outcome(ctx)
+    addf = prog.func("sigma.processing.pipeline.ProcessingPipeline.__add__")
+    for side, recv in (("left", "self"), ("right", "other")):
+        if o.released[side]:
+            r.violation("C15.R5", addf.qual, f"{recv}._clear_pipeline()",
+                        f"'+' strips {recv} of the ownership of its items and moves the item objects into the sum: an operand that is used again afterwards "
+                        f"(e.g. the class-level backend_processing_pipeline on every init_processing_pipeline, or one pipeline object given to two backends) "
+                        f"runs items whose state back-pointer belongs to the last sum built", addf.loc)
+        else:
+            r.ok("C15.R5", addf.qual, f"the items of the {side} operand keep their owner", addf.loc)
     r.floor("C15.R5", 4)
 
 
